@@ -116,6 +116,8 @@ pub struct HistGen {
 	pub setup: Vec<Step>,
 	pub setup_done: bool,
 	pub labels: Vec<Vec<String>>,
+	/// swarm: every account of a wallet was funded alike (equal per-account counters)
+	pub twins: bool,
 	/// failed attempts to advance a deal (the generator gives up after two)
 	pub fails: std::collections::BTreeMap<usize, u32>,
 }
@@ -155,7 +157,25 @@ impl HistGen {
 			}
 			labels.push(l);
 		}
+		// swarm: "twin accounts" - every account of a wallet is funded with the same number
+		// of blocks, so the per-account log-id and key-index counters run in lockstep and
+		// entries / outputs of different accounts carry equal ids (what tells them apart is
+		// the account alone)
+		let twins = labels.iter().any(|l| l.len() > 1) && run.rng.chance(1, 3);
 		for (i, n) in cfg.fund_blocks.iter().enumerate() {
+			if twins && *n > 0 && labels[i].len() > 1 {
+				for lab in labels[i].clone() {
+					setup.push(Step::new(Op::SetAccount { w: i, label: lab }));
+					setup.push(Step::new(Op::Mine {
+						w: Some(i),
+						n: (*n).min(3),
+						txs: false,
+					}));
+				}
+				let lab = run.rng.pick(&labels[i]).clone();
+				setup.push(Step::new(Op::SetAccount { w: i, label: lab }));
+				continue;
+			}
 			if *n > 0 {
 				// sometimes fund a non-default account
 				if labels[i].len() > 1 && run.rng.chance(1, 2) {
@@ -183,6 +203,7 @@ impl HistGen {
 			setup,
 			setup_done: false,
 			labels,
+			twins,
 			fails: std::collections::BTreeMap::new(),
 		}
 	}
